@@ -1108,6 +1108,10 @@ var detPrograms = []string{
 	"(let ((g (lambda (i) (dotimes (i (vtr 1 i) (vtr 2 i)) (vtr 3 i))))) (let ((r nil)) (dotimes (i 3 (reverse r)) (setq r (cons (funcall g i) r)))))",
 	"(let ((h (lambda (x) (do ((x (vtr 1 x) (1- x)) (s 0 (+ s x))) ((< x 1) (vtr 2 s)))))) (let ((r nil)) (dolist (x (list 1 3) (reverse r)) (setq r (cons (funcall h x) r)))))",
 	"(list 'nil 't '5 '3/4 '2.5f0 '\"s\" '#\\a '#(1 2) '(a . b))",
+	// a self-evaluating object as the only or the last form of a function body
+	"(defun uf1 () :circle) (list (uf1) (funcall (lambda () :sq)) ((lambda (a) :tri) 1) (uf1))",
+	"(defun uf1 (a) (vtr 1 a) :sq) (defun uf2 () \"s\") (list (uf1 1) (uf2) (funcall (lambda () #\\a)) (funcall (lambda () 3/4)) (funcall (lambda () nil)) (funcall (lambda () t)) (uf1 2))",
+	"(let ((k :a)) (defun uf1 () k) (defun uf2 () :b) (list (uf1) (uf2) (mapcar (lambda (x) :c) (list 1 2))))",
 }
 
 func setup() {
